@@ -7,9 +7,11 @@ package certmagic
 // Differential + executable specification on the REAL code:
 //   * challenges are presented / cleaned up through the solver stacks that the real
 //     ACMEIssuer.newACMEClient builds (solverWrapper ∘ distributedSolver ∘ httpSolver /
-//     tlsALPNSolver, listening on loopback ports), on three emulated instances that share
+//     tlsALPNSolver, listening on loopback ports), on four emulated instances that share
 //     one storage but each have their own challenge memory (the package map
-//     `activeChallenges` is switched per instance) and their own Config + issuers;
+//     `activeChallenges` is switched per instance) and their own Config + issuers; one
+//     instance configures the issuers behind an application type that wraps an ACMEIssuer
+//     (the Config sees the Issuer interface only);
 //   * after every event, requests go through the real HTTPChallengeHandler (parsed by
 //     net/http's own request parser, answered into an httptest recorder) and hellos through
 //     the real Config.GetCertificate;
@@ -73,7 +75,18 @@ func c15FreePort(t testing.TB) int {
 	return p
 }
 
+// c15WrappedIssuer is an application's issuer type that issues through an ACMEIssuer and
+// reports its IssuerKey (the way Caddy's tls.issuance.acme module does): the Config knows
+// it through the Issuer interface only.
+type c15WrappedIssuer struct{ inner *ACMEIssuer }
+
+func (w c15WrappedIssuer) Issue(ctx context.Context, csr *x509.CertificateRequest) (*IssuedCertificate, error) {
+	return w.inner.Issue(ctx, csr)
+}
+func (w c15WrappedIssuer) IssuerKey() string { return w.inner.IssuerKey() }
+
 type c15Node struct {
+	wrapped  bool // cfg.Issuers holds c15WrappedIssuer values around the ACMEIssuers
 	cfg      *Config
 	cache    *Cache
 	issuers  map[int]*ACMEIssuer // by global issuer index
@@ -166,11 +179,13 @@ func TestVerifC15(t *testing.T) {
 		{CA: "https://ca0.example/dir", TestCA: "https://staging.ca0.example/dir"},
 		{CA: "https://ca1.example/acme/v2"},
 	}
-	nodeIssuers := [][]int{{0, 1}, {0, 1}, {1}}
+	// the last instance is an application that configures its own issuer type around the ACMEIssuers
+	nodeIssuers := [][]int{{0, 1}, {0, 1}, {1}, {1, 0}}
+	nodeWrapped := []bool{false, false, false, true}
 	var nodes []*c15Node
-	for _, idxs := range nodeIssuers {
+	for ni, idxs := range nodeIssuers {
 		cache, cfg := vNewCfg(st, nil)
-		nd := &c15Node{cfg: cfg, cache: cache, issuers: map[int]*ACMEIssuer{}, order: idxs, mgr: &c15Manager{cert: &appCert},
+		nd := &c15Node{wrapped: nodeWrapped[ni], cfg: cfg, cache: cache, issuers: map[int]*ACMEIssuer{}, order: idxs, mgr: &c15Manager{cert: &appCert},
 			mem: map[string]Challenge{}}
 		hp, tp := c15FreePort(t), c15FreePort(t)
 		for _, gi := range idxs {
@@ -178,7 +193,11 @@ func TestVerifC15(t *testing.T) {
 			tpl.ListenHost, tpl.AltHTTPPort, tpl.AltTLSALPNPort, tpl.Logger = "127.0.0.1", hp, tp, zap.NewNop()
 			iss := NewACMEIssuer(cfg, tpl)
 			nd.issuers[gi] = iss
-			cfg.Issuers = append(cfg.Issuers, iss)
+			if nd.wrapped {
+				cfg.Issuers = append(cfg.Issuers, c15WrappedIssuer{iss})
+			} else {
+				cfg.Issuers = append(cfg.Issuers, iss)
+			}
 		}
 		dtpl := templates[idxs[0]]
 		dtpl.ListenHost, dtpl.AltHTTPPort, dtpl.AltTLSALPNPort, dtpl.Logger = "127.0.0.1", hp, tp, zap.NewNop()
@@ -367,7 +386,11 @@ func TestVerifC15(t *testing.T) {
 		cfgTok := func(n int) string {
 			var s []string
 			for _, gi := range nodes[n].order {
-				s = append(s, fmt.Sprint(gi))
+				if nodes[n].wrapped {
+					s = append(s, fmt.Sprint(gi)+"w") // seen through the Issuer interface: IssuerKey only
+				} else {
+					s = append(s, fmt.Sprint(gi))
+				}
 			}
 			return strings.Join(s, ",")
 		}
